@@ -1,4 +1,5 @@
 //! spec -> impl replay of TrackStore behaviours (spec/store/GenTS.tla) - properties C09, C11.
+use std::sync::atomic::Ordering;
 use crate::common::*;
 use crate::doubles::*;
 use serde_json::{json, Map, Value};
@@ -180,15 +181,39 @@ impl Universe {
                 self.plan.set_fault(jstr(o, "fault"));
                 n0 = self.notifier.get();
                 let cl = if jbool(o, "all") { None } else { Some(&classes[..]) };
+                let mut probe_bad: Option<(usize, usize)> = None;
                 let r = if jbool(o, "noblock") {
-                    match self.store.merge_external_noblock(jint(o, "dst") as u64, ext, cl, jbool(o, "hist")) {
-                        Ok(f) => f.get(),
+                    // while the merge is in flight the store is still the map it was: a count taken in the middle of the
+                    // merge (the optimise callback lingers) sees every stored track (TrackStore.tla: merge_external is one
+                    // action; it never changes the set of stored ids)
+                    let before: usize = self.store.shard_stats().iter().sum();
+                    self.plan.in_merge.store(false, Ordering::SeqCst);
+                    self.plan.probe_merge.store(true, Ordering::SeqCst);
+                    let r = match self.store.merge_external_noblock(jint(o, "dst") as u64, ext, cl, jbool(o, "hist")) {
+                        Ok(f) => {
+                            let t0 = std::time::Instant::now();
+                            while !self.plan.in_merge.load(Ordering::SeqCst) && !f.is_ready() && t0.elapsed().as_millis() < 20 {
+                                std::thread::yield_now();
+                            }
+                            if self.plan.in_merge.load(Ordering::SeqCst) {
+                                let during: usize = self.store.shard_stats().iter().sum();
+                                if during != before {
+                                    probe_bad = Some((before, during));
+                                }
+                            }
+                            f.get()
+                        }
                         Err(e) => Err(e),
-                    }
+                    };
+                    self.plan.probe_merge.store(false, Ordering::SeqCst);
+                    r
                 } else {
                     self.store.merge_external(jint(o, "dst") as u64, &ext, cl, jbool(o, "hist"))
                 };
-                ret = json!(if r.is_ok() { "ok" } else { "err" });
+                ret = match probe_bad {
+                    Some((b, d)) => json!(format!("stored tracks counted during the merge: {} (before it: {})", d, b)),
+                    None => json!(if r.is_ok() { "ok" } else { "err" }),
+                };
             }
             "lookup" => {
                 n0 = self.notifier.get();
